@@ -107,6 +107,7 @@ def ls_inv(it, env, phase):
     add("iter_range", z3.And(zint(_iter) >= 0, zint(_iter) <= c["max_iter"]), ("C11", "C04"))
     if c["mode"] == "callable":
         add("eval_budget", count(run, "fun") - c["cF0"] <= zint(_iter), ("C11", "C04"))
+        add("grad_eval_budget", count(run, "jac") - c["cG0"] <= zint(_iter), ("C11",))
     is_start = isinstance(task, bytes) and task == b"START"
     add("task_is_START_or_FG", is_start or (isinstance(task, SymBytes) and run.entails(task.tag == 0)), ("C11",))
     add("START_iff_first_trial", (zint(_iter) == 0) if is_start else (zint(_iter) >= 1), ("C11",))
@@ -198,7 +199,7 @@ def make_program(mode, shared):
         # (the axioms of np.clip are supplied as ground instances for every clip term of a query: pyvc.solve)
         run.ghost["base_pc"] = list(run.pc)
         c = dict(mode=mode, cfg=cfg, x0v=x0v, dv=dv, lbv=lbv, ubv=ubv, f0=f0, s=s, max_iter=max_iter,
-                 cF0=count(run, "fun"), base_f=base_f, base_g=base_g, stpmax=None)
+                 cF0=count(run, "fun"), cG0=count(run, "jac"), base_f=base_f, base_g=base_g, stpmax=None)
         run.ghost["ls"] = c
 
         def obs_max(interp, phase, clo, bound, res):
@@ -258,6 +259,7 @@ def make_program(mode, shared):
                        info=f"returns {res!r}")
         if mode == "callable":
             run.oblige(tag + "::ensures::eval_budget", count(run, "fun") - c["cF0"] <= max_iter, ("C11", "C04"))
+            run.oblige(tag + "::ensures::grad_eval_budget", count(run, "jac") - c["cG0"] <= max_iter, ("C11",))
         for lab, f in sf_inv(run, sf, cfg, base_f, base_g):
             run.oblige(f"{tag}::ensures::sf_inv::{lab}", f, ("C11", "C05"))
         run.oblige(tag + "::ensures::scaling_untouched", zreal(sfac) == s, ("C11", "C17"))
